@@ -22,6 +22,7 @@ is_cpd = z3.Function("cpd_isinstance_ContinuousFactor_TabularCPD", Opaque, B)
 vars_mem = z3.Function("cpd_variables", Opaque, set_sort(Atom))
 vars_at = z3.Function("cpd_variables_at", Opaque, I, Atom)
 vars_len = z3.Function("cpd_variables_len", Opaque, I)
+vars_idx = z3.Function("cpd_variables_idx", Opaque, Atom, I)
 card_at = z3.Function("cpd_cardinality_at", Opaque, I, I)
 card_len = z3.Function("cpd_cardinality_len", Opaque, I)
 ev_mem = z3.Function("cpd_evidence", Opaque, set_sort(Atom))
@@ -52,7 +53,9 @@ class CheckModel(Contract):
             # class invariants of the attached CPD objects
             z3.ForAll([n], z3.Implies(z3.And(N_(g, n), has_cpd(n)), z3.And(
                 is_cpd(c), vars_len(c) >= 1, vars_at(c, 0) == n, card_len(c) == vars_len(c),
-                z3.ForAll([x], ev_mem(c)[x] == z3.Exists([i], z3.And(1 <= i, i < vars_len(c), vars_at(c, i) == x)))))))
+                # evidence list = variables[1:]  (both directions, with the position function of the list as witness)
+                z3.ForAll([i], z3.Implies(z3.And(1 <= i, i < vars_len(c)), ev_mem(c)[vars_at(c, i)])),
+                z3.ForAll([x], z3.Implies(ev_mem(c)[x], z3.And(1 <= vars_idx(c, x), vars_idx(c, x) < vars_len(c), vars_at(c, vars_idx(c, x)) == x)))))))
 
     def snapshot(self, ex, st, args):
         return graph_snapshot(args["self"])
@@ -125,6 +128,8 @@ class CheckModel(Contract):
         n, i = fresh("n", Atom), fresh("i", I)
         c = cpd_of(cur)
         return z3.And(graph_unchanged(g, old), self.first_ok(args, old), N_(g, cur),
+                      # spelled out for the solver (instances of the class invariant for the current node)
+                      has_cpd(cur), card_len(c) == vars_len(c), vars_len(c) >= 1,
                       z3.ForAll([n, i], z3.Implies(z3.And(d1[n], 1 <= i, i < vars_len(cpd_of(n))), self.agree(n, i))),
                       z3.ForAll([i], z3.Implies(z3.And(1 <= i, i < vars_len(c), done[ps.mk(i - 1, vars_at(c, i))]), self.agree(cur, i))))
 
